@@ -20,6 +20,18 @@ Two families beyond plain values:
     in particular both getters of `compose(s, g1, g2)` whatever their order of evaluation (records are compared per
     target).  A getter declared `MStr&&` does not compile on the current code (compose2 passes lvalues), so getters
     take `MStr` / `const MStr&` / by-value template parameters.
+  * retype over reference parameters — the target of `retype()` declares its parameters `const T&` / `T&&` / `T` (QL
+    targets: arithmetic types and the string-like class `av::Str` with a converting constructor) and is called with
+    arguments of other types: every conversion creates a temporary inside the call expression, the target must receive the
+    converted value (model: `castPar` = conversion, then binding; theorem retype_converts_then_binds).  A reference to a
+    temporary that is already gone shows as a sanitizer report (heap-use-after-free for Str, null / stack reference for
+    the arithmetic types) or as a wrong value — an implementation behaviour, hence a monitor failure.
+  * partial catchers — two exception types (K1 = av::Thrown, K2 = av::Thrown2), catchers that rethrow the exception in
+    flight and handle only the types they know (`av::PCatch`), next to the total ones: `exception_catch(f, c)` returns
+    `c()` when `c` handles what `f` throws, otherwise the exception must reach the next enclosing `exception_catch` or
+    the caller — direct call (nullary and variadic overload), slot, signal emission (theorem
+    exception_catch_partial_propagates).  The harness installs a terminate handler that prints a marker and exits with
+    code 24: "the exception did not reach the caller" is then reported as what it is.
 """
 import json
 import os
@@ -37,7 +49,8 @@ REQUIRED = ["Sigc.C10.tupleStart_eq_take", "Sigc.C10.tupleEnd_eq_drop", "Sigc.C1
             "Sigc.C10.impl_eq_spec", "Sigc.C10.result_clauses", "Sigc.C10.exception_catch_throw",
             "Sigc.C10.routes_agree", "Sigc.C10.resultMode_forwarding", "Sigc.C10.result_identity",
             "Sigc.C10.decay_witness", "Sigc.C10.bound_result_identity", "Sigc.C10.nullary_decay_witness",
-            "Sigc.C10.compose_passes_result", "Sigc.C10.getter_decay_witness"]
+            "Sigc.C10.compose_passes_result", "Sigc.C10.getter_decay_witness",
+            "Sigc.C10.exception_catch_partial_propagates", "Sigc.C10.retype_converts_then_binds"]
 TRUSTED = [
     "Lean 4.33.0 kernel (thorough: leanchecker); axioms per theorem as audited by #print axioms",
     "the hand-written model lean/Sigc/Adapt.lean (tupleStart/tupleCdr/tupleEnd/transformEach, argsImpl, callImpl, "
@@ -45,7 +58,10 @@ TRUSTED = [
     "by the sampled correspondence below",
     "callSpec / ExprC10.spec as the reading of the documentation (insert at I, append, erase I, drop last, "
     "static_cast per position, constant result, composition, catcher iff throw, identity; 'returns the result of the "
-    "wrapped functor' read as: the result itself, a reference result is the reference to the same object)",
+    "wrapped functor' read as: the result itself, a reference result is the reference to the same object; 'converts "
+    "each argument to f's parameter type' read as: f receives the converted value also when the parameter is a "
+    "reference bound to the converting temporary; a catcher that rethrows and does not handle the exception's type "
+    "lets it proceed to the next catcher adaptor / the caller, as the documentation of exception_catch says)",
     "the table resultMode : ResSite -> declAuto | declared | decays of lean/Sigc/Adapt.lean (how each call operator — "
     "nullary overloads operator()() are rows of their own, and so is the hand-over of compose's getter results to the "
     "setter — hands a result on) and the overload selection `nullary` (no arguments and not spelled "
@@ -58,7 +74,11 @@ ASSUMPTIONS = [
     "the order in which compose(setter, g1, g2) evaluates g1 and g2 is unspecified in C++: call records are compared "
     "per target, and generated getters of compose2 do not throw",
     "retype() is exercised over pointer_functor and slot (not over mem_functor); targets are free functions and "
-    "functor classes with a non-template operator()",
+    "functor classes with a non-template operator(); declared `const T&` / `T&&` / `T` parameters (QL targets) over "
+    "int/long/double and av::Str (converted from arithmetic arguments only, never back)",
+    "exceptions are of two unrelated class types; catchers are total (never rethrow) or partial (rethrow, handle K1 "
+    "and/or K2) and do not throw exceptions of their own; a partial catcher is only used as the catcher argument of "
+    "exception_catch",
     "generated functors never destroy a trackable they are bound to (finding F6 is out of scope of C10)",
     "reference results are covered on the direct-call route and below nested adaptors; slot<T&(...)>::operator() and "
     "signal<T&(...)>::emit are rejected by the compiler (value-initialisation of a reference), slots/signals over a "
@@ -178,11 +198,27 @@ def family_cases(ctx, g):
     for i in range(300 if ctx.thorough else 20):
         ch = [rng.choice(M_KINDS) for _ in range(1 + rng.below(3))]
         out.append(("mstr", g.mcase(1 + rng.below(3), ch, "DDSSG"[i % 5])))
+    # --- retype over const T& / T&& parameters with arguments that need converting temporaries
+    reps = 4 if ctx.thorough else 1
+    for _ in range(reps):
+        for i, w in enumerate(RETYPE_WRAPS):
+            out.append(("retype-ref", g.retype_case(1 + rng.below(3), "DSG"[i % 3], w)))
+    # --- partial catchers, two exception types
+    for _ in range(reps):
+        for i, (shape, w) in enumerate(CATCH_SHAPES):
+            out.append(("catch", g.catch_case(rng.below(3) if i % 4 else 0, "DSGD"[i % 4], shape, 1 + (i + rng.below(2)) % 2, w)))
     cases = []
     for fam, c in out:
         c["origin"] = "gen:" + fam
         cases.append(c)
     return cases
+
+
+RETYPE_WRAPS = [None, None, None, "TO", "SL", "ECT", "H", "B", "HR", "RR", "SL", None]
+CATCH_SHAPES = [("unhandled", None), ("unhandled", None), ("unhandled", None), ("handled", None), ("nested-total", None),
+                ("nested-partial", None), ("nested-none", None), ("total", None), ("unhandled", "TO"), ("unhandled", "H"),
+                ("nested-total", "B"), ("unhandled", "SL"), ("handled", "RR"), ("unhandled", "HR"), ("nested-partial", "SL"),
+                ("unhandled", None)]
 
 
 def build_cases(ctx):
@@ -244,6 +280,10 @@ def edge_stream(ctx, cases):
     out.append(("c10 X i 0 0 L 0 0 i 0", "parse-error"))
     out.append(("c10 D i 0 0 B 0 1 i:1 L 0 0 i 1 i extra", "parse-error"))
     out.append(("c10 D i 0 0 H 0 L 0 0 i 0", "wt=0"))
+    out.append(("c10 D i 0 1 i:3 RT 1 cl L 0 0 i 1 l", "wt=0"))          # retype's T_type must be the target's declared type
+    out.append(("c10 D i 0 1 i:3 RT 1 cl QL 0 0 i 1 cl", "wt=1"))
+    out.append(("c10 D i 0 1 i:3 RT 1 cl PL 0 0 i 1 l", "wt=1"))
+    out.append(("c10 D i 0 1 i:3 EC L 0 3 i 1 i PC 1 i 1", "parse-error"))   # unknown exception type
     return out
 
 
@@ -289,8 +329,14 @@ def classify(cases, results):
             continue
         if impl != r["expected"]:
             d = dict(base)
-            d["detail"] = ("the real adaptor did not do what is documented: observed [%s], documented [%s] for %s "
-                           "called via route %s with (%s)" % (impl, r["expected"], base["cxx"], c["route"],
+            what = "the real adaptor did not do what is documented"
+            if impl.startswith("crash:") and "TERMINATE" in impl:
+                what = ("std::terminate() was called: the exception did not reach the caller (nor the next enclosing "
+                        "exception_catch)")
+            elif impl.startswith("crash:"):
+                what = "the call died (sanitizer report / crash)"
+            d["detail"] = ("%s: observed [%s], documented [%s] for %s "
+                           "called via route %s with (%s)" % (what, impl, r["expected"], base["cxx"], c["route"],
                                                             ag.c10_call_text(c)))
             mon.append(d)
         if impl != model or wt != "1" or spec != "same":
@@ -401,7 +447,10 @@ def correspondence(ctx):
             "return_conversion": 0, "corpus_cases": len(corpus), "edge_stream": len(edge),
             "reference_result_observed": 0, "reference_returning_target_cases": 0,
             "setter_received_getters_object": 0, "mstr_argument_cases": 0,
-            "mstr_rvalue_into_compose2": 0, "mstr_pass": {}}
+            "mstr_rvalue_into_compose2": 0, "mstr_pass": {},
+            "retype_reference_parameter_cases": 0, "retype_converting_temporaries": {"const T&": 0, "T&&": 0, "Str": 0},
+            "thrown_types": {"K1": 0, "K2": 0}, "partial_catcher_cases": 0, "exception_reached_caller": 0,
+            "partial_catcher_passed_exception_on": 0}
     pairs = set()
     distinct = set()
     for c, r in zip(cases, results):
@@ -416,6 +465,21 @@ def correspondence(ctx):
             pairs.add((x, y))
         if "threw" in (r["impl"] or ""):
             dist["throwing"] += 1
+        toks = r["line"].split(" ")
+        rt = ag.c10_retype_temporaries(c)
+        if rt:
+            dist["retype_reference_parameter_cases"] += 1
+            for k_, v_ in rt.items():
+                dist["retype_converting_temporaries"][k_] += v_
+        for k_, code in (("K1", "1"), ("K2", "2")):
+            dist["thrown_types"][k_] += sum(1 for j, t in enumerate(toks[:-2]) if t in ("L", "V", "PL", "QL", "RL")
+                                            and toks[j + 2] == code)
+        if "PC" in toks:
+            dist["partial_catcher_cases"] += 1
+            if (r["impl"] or "").endswith(("res=threw", "res=threw2")):
+                dist["partial_catcher_passed_exception_on"] += 1
+        if (r["impl"] or "").endswith(("res=threw", "res=threw2")):
+            dist["exception_reached_caller"] += 1
         if "res=ref:" in (r["impl"] or "") or "res=cref:" in (r["impl"] or ""):
             dist["reference_result_observed"] += 1
         if " RL " in r["line"]:
